@@ -68,7 +68,7 @@ def stress_names(rng, d):
 
 
 def generate(rng, tier):
-    n = 170 if tier == "quick" else 1500
+    n = 170 if tier == "quick" else 600
     out = []
     for i in range(n):
         r = rng.random()
@@ -154,8 +154,9 @@ def finding_signature(case, obs):
     return None
 
 
-def mutate_case(rng, case):
-    return {"fn": "acyclic_unroll", "circuit": gen_cyclic(rng), "kind": "cyclic"}
+# no mutate_case: a harmless rewrite of the construction makes nearly every case disagree, and 40 neighbours per
+# disagreeing case would make the widened search last hours; the widened search re-generates instead
+WIDEN = 2
 
 
 CLAIMED = True
